@@ -1,6 +1,6 @@
 """C05 - the user's objective is only ever evaluated inside the search space."""
 from .common import *          # noqa
-from .funnel import Funnel, init_agent_overrides
+from .funnel import Funnel, init_agent_overrides, low_precision_cases
 from .C14 import var_lists
 
 META = {
@@ -56,6 +56,21 @@ def ob_solve(names, kind):
                 except (ValueError, OverflowError, TypeError):
                     pass
             return args_ok(fu.log, fu.decls)
+    return f
+
+
+def ob_low_precision():
+    def f():
+        for label, decls, opt, task, x in low_precision_cases():
+            for call in (opt._init_agent, task.solve, opt._fcn):
+                call(list(x))
+            r = args_ok(task.data["log"], decls)
+            if r is not OK:
+                return Failure("objective-called-outside-the-search-space:low-precision-candidate", case=label,
+                               log=[repr(a) for a in task.data["log"]])
+            if len(task.data["log"]) != 3:
+                return Failure("low-precision:harness-did-not-reach-the-objective", case=label)
+        return OK
     return f
 
 
@@ -143,5 +158,6 @@ def obligations(tier):
         obs.append(Ob(f"pool[C,{mode},n=2]", ob_pool(("C",), mode, 2), 300))
         if th:
             obs.append(Ob(f"pool[C+D3,{mode},n=2]", ob_pool(("C", "D3"), mode, 2), 900))
+    obs.append(Ob("low_precision_candidates", ob_low_precision(), 60))
     obs.append(Ob("twin_vacuity", twin(), 30, expect_refuted=True))
     return obs
